@@ -323,6 +323,66 @@ def _leaves(shape):
     return [p for p, leaf in _nodes(shape) if leaf]
 
 
+@contract(S + "::tree_node_parents", "C12")
+class NodeParents(Contract):
+    """UNBOUNDED in the number of nodes and for any numbering of them (depth-first, best-first ...): the table sends every child to
+    its parent - +parent for a left child, -parent for a right child - and holds nothing else.  The real loop runs over a dictionary of
+    unbounded symbolic size (loop invariant over the handled prefix of the nodes)."""
+    symbolic_dicts = {"parents": "int"}
+
+    def setup(self, E, v):
+        m = E.size("node_count", 1)
+        cl, cr = E.nd("children_left", (m,), "int"), E.nd("children_right", (m,), "int")
+        t = Obj("Tree", tag="Tree")
+        t.fields.update(children_left=cl, children_right=cr, node_count=m)
+        return dict(tree=t, _m=m, _cl=cl, _cr=cr)
+
+    def requires(self, E, a):
+        m, cl, cr = z(a._m), a._cl, a._cr
+        i, j = z3.Int("wf!i"), z3.Int("wf!j")
+        inr = lambda q: z3.And(q >= 0, q < m)
+        inner = lambda q: cl.get(q) != -1
+        return {"children_are_two_distinct_nodes_or_both_absent": z3.ForAll([i], z3.Implies(inr(i), z3.If(
+                    inner(i), z3.And(inr(cl.get(i)), inr(cr.get(i)), cl.get(i) != cr.get(i)), cr.get(i) == -1))),
+                "no_node_has_two_parents": z3.ForAll([i, j], z3.Implies(z3.And(inr(i), inr(j), i != j, inner(i), inner(j)), z3.And(
+                    cl.get(i) != cl.get(j), cl.get(i) != cr.get(j), cr.get(i) != cr.get(j))))}
+
+    def old(self, E, a):
+        return dict(w=[a.tree.fields[g].cell.writes for g in ("children_left", "children_right")])
+
+    @staticmethod
+    def _facts(mp, cl, cr, m, upto, right_sign=-1):
+        j, key = z3.Int(models.fresh_name("pj")), z3.Int(models.fresh_name("pk"))
+        inner = lambda q: cl.get(q) != -1
+        val = lambda k: z3.Select(mp.value, k)
+        w = z3.If(val(key) >= 0, val(key), -val(key))                 # the parent a table entry names
+        return {
+            "every_child_of_a_handled_node_is_sent_to_it_left_plus_right_minus": z3.ForAll([j], z3.Implies(
+                z3.And(j >= 0, j < z(upto), inner(j)), z3.And(
+                    z3.Select(mp.member, cl.get(j)), val(cl.get(j)) == j, z3.Select(mp.member, cr.get(j)), val(cr.get(j)) == right_sign * j))),
+            "every_entry_is_a_child_with_its_parent": z3.ForAll([key], z3.Implies(z3.Select(mp.member, key), z3.And(
+                w >= 0, w < z(upto), inner(w), z3.Or(cl.get(w) == key, cr.get(w) == key),
+                z3.Implies(val(key) > 0, cl.get(w) == key), z3.Implies(val(key) < 0, cr.get(w) == key))))}
+
+    @staticmethod
+    def _inv(E, L):
+        t = L["tree"].fields
+        return NodeParents._facts(L["parents"], t["children_left"], t["children_right"], z(t["node_count"]), L.i)
+    loops = {0: _inv.__func__}
+
+    def ensures(self, E, a, res, old, right_sign=-1):
+        from pyvc.dicts import SymMap
+        ok = isinstance(res, SymMap)
+        out = {"a_table": z3.BoolVal(ok)}
+        if ok:
+            out.update(NodeParents._facts(res, a._cl, a._cr, z(a._m), a._m, right_sign))
+        out["tree_not_written"] = z3.BoolVal([a.tree.fields[g].cell.writes for g in ("children_left", "children_right")] == old["w"])
+        return out
+
+    canaries = {"right_children_stored_with_plus_sign": lambda E, a, res, old: NodeParents().ensures(E, a, res, old, right_sign=1).get(
+        "every_child_of_a_handled_node_is_sent_to_it_left_plus_right_minus", z3.BoolVal(True))}
+
+
 @contract(S + "::tree_node_range", "C12")
 class NodeRange(Contract):
     """the box returned for a leaf contains exactly the points the tree routes to that leaf (nan = no bound on that side)"""
@@ -429,7 +489,7 @@ class PredictLeaves(Contract):
 
 
 META = dict(
-    level="proof", assumptions=["A1", "A2", "A6", "A7", "A9"],
+    level="proof", lean_files=["lemmas/Sums.lean"], assumptions=["A1", "A2", "A6", "A7", "A9"],
     trusted=["Tree._add_node (scikit-learn; the Cython wrapper tree_add_node of this repository is executed from the text extracted from "
              "_tree_digitize.pyx by pyvc/pyxstrip.py): returns the next node id; in the final tree a split node routes x <= threshold to the "
              "child attached on its left slot and x > threshold to the right one; a leaf predicts its value (ghost leafid, stated as axioms at node creation); "
